@@ -101,6 +101,38 @@ def audit(hbin, cache, algo, tmp, tag):
     return json.load(open(out))
 
 
+def healthy_store_failure(rc, text, base, logname):
+    """An un-faulted build that grog reports as 'failed to write outputs to cache' although nothing in the environment refused a
+    call: exit 1 with that message, room on the disk, and a system-call log without a call failing for an environmental reason.
+    CacheStore.tla's Set on a healthy store always succeeds, so this is the code leaving the specification; anything else is INFRA."""
+    wl = os.path.join(base, logname)
+    if not (rc == 1 and "failed to write outputs to cache" in (text or "") and os.path.exists(wl)):
+        return False
+    if shutil.disk_usage(base).free <= (1 << 30):
+        return False
+    return not re.search(r"= -1 (ENOSPC|EIO|EDQUOT|EMFILE|ENFILE|ENOMEM|EROFS|EACCES|EPERM|EINTR|EAGAIN)\b", open(wl, errors="replace").read())
+
+
+def reference_build(chk, grog, tmp, name, algo, edited):
+    """The from-scratch reference: up to 4 attempts; an attempt refused by a healthy store is a violation (and the next attempt is
+    made so that the fault cases can still run); any other failure is an infrastructure outcome."""
+    for attempt in range(4):
+        base = os.path.join(tmp, f"{name}_{algo}" + (f"_{attempt}" if attempt else ""))
+        os.makedirs(base)
+        ws = make_ws(base, algo)
+        if edited:
+            open(os.path.join(ws, "pkg", "a.in"), "w").write("alpha edited\n")
+        rc, text = run_traced(grog, ws, base)
+        if rc == 0:
+            return base, ws
+        if not healthy_store_failure(rc, text, base, "st.log"):
+            raise core.Infra(f"reference build{' (edited)' if edited else ''} failed: rc={rc} " + (text or "")[-500:])
+        chk.violation("cache:healthy-store-write-fails:reference", f"{algo} from-scratch build{' of the edited sources' if edited else ''}, no fault injected, attempt {attempt + 1}: " + text[-300:].replace("\n", " "),
+                      {"algo": algo, "edited": edited, "attempt": attempt + 1, "detail": text[-600:]})
+        shutil.rmtree(base, ignore_errors=True)
+    return None, None
+
+
 def one_case(grog, hbin, tmp, case, clean):
     """case = (id, algo, warm, mode, k): warm = build once and edit before the faulted build; mode = kill | eio-write | eio-rename | random-kill."""
     cid, algo, warm, mode, k = case
@@ -112,8 +144,9 @@ def one_case(grog, hbin, tmp, case, clean):
         pre = []
         if warm:
             rc, wtext = run_traced(grog, ws, base, log="warm.log")
-            if rc == 1 and "failed to write outputs to cache" in wtext and shutil.disk_usage(base).free > (1 << 30):
-                # no fault is injected into the warm-up, every command exited 0 and the disk has room, yet the store refused a write:
+            if healthy_store_failure(rc, wtext, base, "warm.log"):
+                # no fault is injected into the warm-up, every command exited 0, the disk has room and the system-call log shows no call that the
+                # environment refused (ENOSPC, EIO, EMFILE, EACCES, ...), yet grog reports that the store refused a write:
                 # CacheStore.tla's Set on a healthy store always succeeds (two workers storing one digest at once included), so this
                 # is the code leaving the specification, not the environment (anything else that fails here stays an INFRA outcome)
                 problems.append(("healthy-store-write-fails", "un-faulted build on a healthy store: " + wtext[-300:].replace("\n", " ")))
@@ -215,12 +248,9 @@ def run(chk, tmp, replay=None):
     clean = {"fresh": {}, "edited": {}}
     kmax, targeted = {}, {}
     for algo in ("xxh3", "sha256"):
-        base = os.path.join(tmp, "clean_" + algo)
-        os.makedirs(base)
-        ws = make_ws(base, algo)
-        rc, text = run_traced(grog, ws, base)
-        if rc != 0:
-            raise core.Infra("reference build failed: " + text[-500:])
+        base, ws = reference_build(chk, grog, tmp, "clean", algo, False)
+        if base is None:
+            return      # four reference builds in a row refused by a healthy store: reported above
         clean["fresh"][algo] = outputs(ws)
         per_thread = {}
         ordinal = {}           # (thread, syscall) -> count so far
@@ -244,13 +274,9 @@ def run(chk, tmp, replay=None):
                 in_set[t] = False
         kmax[algo] = max(per_thread.values())
         targeted[algo] = sorted(cand)
-        base2 = os.path.join(tmp, "clean2_" + algo)
-        os.makedirs(base2)
-        ws2 = make_ws(base2, algo)
-        open(os.path.join(ws2, "pkg", "a.in"), "w").write("alpha edited\n")
-        p = subprocess.run([grog, "build", "//..."], cwd=ws2, env=env_of(base2), capture_output=True, text=True, timeout=120)
-        if p.returncode != 0:
-            raise core.Infra("reference build (edited) failed")
+        base2, ws2 = reference_build(chk, grog, tmp, "clean2", algo, True)
+        if base2 is None:
+            return
         clean["edited"][algo] = outputs(ws2)
         shutil.rmtree(base, ignore_errors=True)
         shutil.rmtree(base2, ignore_errors=True)
